@@ -642,6 +642,33 @@ def _embedded_skin_width_rule(ctx, m2):
                     byname.setdefault(m1.group(1), {})["writer M2Model::write"] = (int(m1.group(2)), f, l.get("ln"))
                 elif m2_ and last == "parse_embedded_skin":
                     byname.setdefault(l["pat"]["name"][:-5], {})["extractor parse_embedded_skin"] = (int(m2_.group(1)), f, l.get("ln"))
+    # the submesh record changed width between versions: the three routines must pick the width by the same version table
+    from .c10 import _ival as _iv, _NoEval as _NE
+    tabs = {}
+    for f in m2.fn_list:
+        if not f.hir or f.kind == "Closure":
+            continue
+        last = norm(f.path).split("::")[-1]
+        if last not in ("collect_embedded_skin_data", "write", "parse_embedded_skin") or (last != "collect_embedded_skin_data" and "M2Model" not in f.path):
+            continue
+        for l in hirq.find(f.hir["body"], "let"):
+            if l["pat"].get("k") == "bind" and l.get("init") is not None and re.search(r"submesh_size", l["pat"]["name"]) and hirq.strip(l["init"]).get("k") == "if" and "version" in hirq.render(l["init"]):
+                try:
+                    tabs[(last, l.get("ln"))] = (tuple(_iv(l["init"], {"__leaf__": (lambda r_, v=v: v if r_.endswith("version") else None)}, {}) for v in (256, 257, 259, 260, 261, 263, 264, 272)), f)
+                except _NE:
+                    pass
+    if len(tabs) >= 2:
+        ref = None
+        for (who, ln), (tab, f) in sorted(tabs.items()):
+            if who == "collect_embedded_skin_data":
+                ref = tab
+        ref = ref or sorted(tabs.values(), key=lambda v: v[0])[0][0]
+        for (who, ln), (tab, f) in sorted(tabs.items()):
+            if tab == ref:
+                ctx.ok(R, {"array": "submeshes", "routine": who, "width_by_version_256_257_259_260_261_263_264_272": tab})
+            else:
+                ctx.bad(R, "embedded-skin|submeshes|%s" % who, "%s:%d" % (f.file, ln or 0), "%s takes the submesh width %s for versions 256,257,259,260,261,263,264,272; the reader takes %s" % (who, tab, ref),
+                        "for the version where they differ the submesh count written into the view header does not match the bytes stored: the submesh block comes back with the wrong length or parsing fails")
     if not byname:
         ctx.bad(R, "embedded-skin|missing", "-", "no element widths recognised", "anchor gone")
         return
@@ -695,6 +722,30 @@ def vacuous_position_test_rule(ctx, crate, pid, floor):
                     ctx.ok(R, {"fn": f.path.split("::")[-1], "end_position": name})
 
 
+def _anim_entry_offset_rule(ctx, m2):
+    """the entry table of a modern .anim file records where each section *was written*: the offset stored for a section is a
+    stream position captured around its write (or a sum of byte counts actually written), never a running total of the entries'
+    `size` fields — those cover the section header and bone table only, not the key-frame data behind them"""
+    R = ctx.rule("C13.anim-entry-offsets-are-captured-positions", "every value assigned to an AnimEntry `.offset` in AnimFile::write_modern derives from stream_position() and from no `.size` field", floor=1)
+    f = next((x for x in m2.fn_list if x.hir and x.kind != "Closure" and re.search(r"anim::AnimFile::write(_modern)?$", norm(x.path)) and any(a.get("k") == "assign" and hirq.render(hirq.strip(a["l"])).endswith(".offset") for a in hirq.walk(x.hir["body"]))), None)
+    if f is None:
+        ctx.bad(R, "write_modern|missing", "-", "no `.offset =` assignment found in AnimFile::write(_modern)", "anchor gone")
+        return
+    ctx.saw_fn(f)
+    body = f.hir["body"]
+    for a in [a for a in hirq.walk(body) if a.get("k") == "assign" and hirq.render(hirq.strip(a["l"])).endswith(".offset")]:
+        if hirq.lit_int(hirq.strip(a["r"])) is not None:
+            continue                      # placeholder
+        leaves = [("?" if v is None else hirq.render(v)) for v in hirq.value_leaves(body, a["r"], depth=5)]
+        from_size = [l for l in leaves if re.search(r"\.size\b", l)]
+        captured = [l for l in leaves if "stream_position" in l]
+        if from_size or not captured:
+            ctx.bad(R, "write_modern|offset-not-captured", "%s:%d" % (f.file, a.get("ln") or 0), "`%s` is built from %s" % (hirq.render(a)[:60], ", ".join(from_size or leaves)[:90]),
+                    "every section after one that carries key-frame data gets an offset that is too small: the written file does not parse back (InvalidMagic at the wrong place)")
+        else:
+            ctx.ok(R, {"assignment": hirq.render(a)[:60], "from": captured[:2]})
+
+
 def run(ctx):
     prog = ctx.prog
     m2 = prog.crate(CR)
@@ -704,6 +755,7 @@ def run(ctx):
     enumerate_index_rule(ctx, m2, "C13", floor=20)
     _bone_index_validity_rule(ctx, m2)
     _embedded_skin_width_rule(ctx, m2)
+    _anim_entry_offset_rule(ctx, m2)
     vacuous_position_test_rule(ctx, m2, "C13", floor=2)
     from .c15 import prealloc_cap_rule
     prealloc_cap_rule(ctx, [m2], "C13", floor=10)
